@@ -3006,14 +3006,17 @@ class MOFCompiler:
                 self.parser.mof = mof
                 _ = self.parser.parse(mof, lexer=lexer)
 
-            self.parser.file = oldfile
-            self.parser.mof = oldmof
             return self.parser.embedded_objects
         except MOFCompileError as pe:
             # Generate the error message into log and reraise error
             self.parser.log(pe.get_err_msg())
             raise
         finally:
+            # Restore the MOF text and file of the compile this one is nested
+            # in, also if this compile failed, so that the including compile
+            # reports the positions of its errors correctly
+            self.parser.file = oldfile
+            self.parser.mof = oldmof
             # Force the embedded_iobjects variable to be reset telling the
             # compiler not to insert new objects into this variable
             self.parser.embedded_objects = None
@@ -3087,13 +3090,16 @@ class MOFCompiler:
             # log = logging.getLogger()
             # logging.basicConfig(level=logging.DEBUG)
             rv = self.parser.parse(mof, lexer=lexer)
-            self.parser.file = oldfile
-            self.parser.mof = oldmof
             return rv
         except MOFCompileError as pe:
             # Generate the error message into log and reraise error
             self.parser.log(pe.get_err_msg())
             raise
+        finally:
+            # Restore the MOF text and file of the compile this one is nested
+            # in, also if this compile failed
+            self.parser.file = oldfile
+            self.parser.mof = oldmof
 
     def compile_file(self, filename, ns):
         """
